@@ -330,7 +330,7 @@ class Check:
             for i, code in mism:
                 c = cases.get(i, {})
                 found.append(dict(index=i, code=code, case=c.get("case"), coq=c.get("coq"), kind=c.get("kind")))
-        if not mism and not problems:
+        if not mism and not problems and not os.environ.get("VERIF_KEEP_RUN"):
             shutil.rmtree(outdir, ignore_errors=True)
         return summ, found, problems
 
